@@ -406,12 +406,13 @@ def gen_rcase(r, k):
         L = ["colvar {", "  name v%d" % v, "  width 0.5"]
         is_scalar = True
         ncomp = 1
+        dbg = ["    debugGradients on"] if r.random() < 0.3 else []     # components that log while they are evaluated
         if kind == "distance":
-            L += ["  distance {", "    group1 { %s }" % grp(a[:2]), "    group2 { %s }" % grp(a[2:4]), "  }"]
+            L += ["  distance {"] + dbg + ["    group1 { %s }" % grp(a[:2]), "    group2 { %s }" % grp(a[2:4]), "  }"]
         elif kind in ("distance2c", "dist3c"):
             ncomp = 2 if kind == "distance2c" else 3
             for i in range(ncomp):
-                L += ["  distance {", "    name d%d" % i, "    componentCoeff %s" % r.choice(["1.0", "0.5", "-1.0", "2.0"]),
+                L += ["  distance {"] + dbg + ["    name d%d" % i, "    componentCoeff %s" % r.choice(["1.0", "0.5", "-1.0", "2.0"]),
                       "    group1 { %s }" % grp(a[2 * i:2 * i + 1]), "    group2 { %s }" % grp(a[2 * i + 1:2 * i + 2]), "  }"]
         elif kind == "angle":
             L += ["  angle {", "    group1 { %s }" % grp(a[:1]), "    group2 { %s }" % grp(a[1:3]), "    group3 { %s }" % grp(a[3:4]), "  }"]
@@ -454,9 +455,9 @@ def gen_rcase(r, k):
     biases = []
     nb = r.randint(1, 4)
     for b in range(nb):
-        cand = ["harmonic", "harmonic", "walls", "linear", "meta", "meta", "histogram", "abf"]
+        cand = ["harmonic", "harmonic", "walls", "linear", "meta", "meta", "histogram", "abf", "abf", "metarep"]
         kind = r.choice(cand)
-        if kind in ("walls", "linear", "meta", "histogram", "abf") and not scalar:
+        if kind in ("walls", "linear", "meta", "histogram", "abf", "metarep") and not scalar:
             kind = "harmonic"
         abf_ok = [v for v in scalar if vars_[v]["kind"] in ("distance", "distz", "gyration", "angle")]   # total force available
         if kind == "abf" and not abf_ok:
@@ -485,6 +486,11 @@ def gen_rcase(r, k):
             if grids == "on" and r.random() < 0.4:
                 L += ["  keepHills on"]
             L += ["}"]
+        elif kind == "metarep":
+            # a bias that shares data with replicas (through files): the module must then run the bias loop on the main thread
+            v = r.choice(scalar)
+            L = ["metadynamics {", "  name b%d" % b, "  colvars v%d" % v, "  hillWeight 0.25", "  hillWidth 2.0", "  newHillFrequency 2",
+                 "  multipleReplicas on", "  replicaID rep1", "  replicasRegistry @TAG@.registry.txt", "  replicaUpdateFrequency 2", "}"]
         elif kind == "histogram":
             vs = r.sample(scalar, min(len(scalar), r.choice([1, 2])))
             L = ["histogram {", "  name b%d" % b, "  colvars " + " ".join("v%d" % v for v in vs), "}"]
@@ -541,7 +547,7 @@ def rcase_config(c):
 def rcase_scenario(c, smp, tag):
     L = ["natoms %d" % c["natoms"], "temperature 300", "dt 1", "gauss 0.25 -0.5 0.125 1.0 -0.75"]
     L += ["forcescript " + " ".join("v%d %s" % (v, V.hexf(f)) for v, f in c["script"])] if c["use_script"] else ["forcescript"]
-    L += ["prefix %s" % tag, "smp %s 1" % smp, "new", "config EOF"] + rcase_config(c) + ["EOF", "show items 0 af 1 tf 1"]
+    L += ["prefix %s" % tag, "smp %s 1" % smp, "new", "log %s.log" % tag, "config EOF"] + [l.replace("@TAG@", tag) for l in rcase_config(c)] + ["EOF", "setupoutput", "show items 1 af 1 tf 1"]
     for st in c["steps"]:
         for v, f in st["flags"]:
             L += ['scriptq cv colvar v%d cvcflags "%s"' % (v, " ".join(map(str, f)))]
@@ -572,6 +578,9 @@ def rich_part(run, r, sim, cases, d, env=None):
     envs.setdefault("OMP_NUM_THREADS", str(r.choice([2, 3, 4])))
     for c in cases:
         ta, tb = "A%d" % c["id"], "B%d" % c["id"]
+        if any(x["kind"] == "metarep" for x in c["biases"]):
+            for tg in (ta, tb):
+                open(os.path.join(d, tg + ".registry.txt"), "w").close()    # the (empty) shared registry of the replicas
         rc1, o1, e1 = run_batch(sim, rcase_scenario(c, c["smp"], ta), d, envs, timeout=300)
         rc2, o2, e2 = run_batch(sim, rcase_scenario(c, "serial", tb), d, envs, timeout=300)
         rep = {"kind": "rcase", "case": c}
@@ -592,6 +601,10 @@ def rich_part(run, r, sim, cases, d, env=None):
             continue
         key = json.dumps(rcase_config(c))
         run.count(key, nontrivial=len(c["biases"]) >= 2 or any(x["ncomp"] >= 2 for x in c["vars"]))
+        if any(x["kind"] == "metarep" for x in c["biases"]):
+            run.dist("R:replica-sharing bias (bias loop must stay on the main thread)")
+            if any(l.startswith("BITEMS") for l in o1):
+                run.violation("replica-sharing:parallel-bias-loop", "a bias with replicaUpdateFrequency > 0 is active but the module ran the parallel bias loop; config:\n%s" % "\n".join(rcase_config(c)), rep)
         df = first_diff(strip_items(o1), strip_items(o2))
         if df:
             t = step_of_line(strip_items(o1), df[0])
@@ -600,6 +613,18 @@ def rich_part(run, r, sim, cases, d, env=None):
                 t, df[1], c["smp"], c["steps"][max(t, 0)]["nt"], df[2], "\n".join(rcase_config(c))), rep)
             continue
         fa, fb = read_files(d, ta), read_files(d, tb)
+        # the log: items running on different threads may interleave their messages (the property fixes the indentation,
+        # not an order between concurrent items), so the MULTISET of log lines - text and indentation - must be that of the
+        # serial run; every other file must be byte-identical
+        la, lb = fa.pop(".log", b""), fb.pop(".log", b"")
+        sa, sb = sorted(la.replace(ta.encode(), b"@").split(b"\n")), sorted(lb.replace(tb.encode(), b"@").split(b"\n"))
+        run.dist("R:log lines compared", len(sa))
+        if sa != sb:
+            only = [x for x in sa if x not in sb][:2] + [x for x in sb if x not in sa][:2]
+            run.violation("smp-vs-serial:log-lines", "rich scenario: the log written under schedule %s (threads %s) is not a rearrangement of the serial log (%d vs %d lines), e.g. %s; config:\n%s" % (
+                c["smp"], c["steps"][0]["nt"], len(sa), len(sb), [x.decode("utf8", "replace")[:120] for x in only], "\n".join(rcase_config(c))), rep)
+        fa = {k: v.replace(ta.encode(), b"@") for k, v in fa.items()}
+        fb = {k: v.replace(tb.encode(), b"@") for k, v in fb.items()}
         for suffix in sorted(set(fa) | set(fb)):
             if fa.get(suffix) != fb.get(suffix):
                 run.violation("smp-vs-serial:files", "rich scenario: file *%s written under schedule %s differs from the one written under smp serial (accumulated data / output); config:\n%s" % (
